@@ -33,7 +33,7 @@ import (
 // operation sequences
 
 type wop struct {
-	Kind byte // 0 put, 1 delete, 2 fail (ledger scripts only), 3 read K into register Reg, 4 put register Reg under K
+	Kind byte // 0 put, 1 delete, 2 fail (ledger scripts only), 3 read K into register Reg, 4 put register Reg under K, 5 plain read of K (result unused)
 	K, V []byte
 	Reg  byte
 }
@@ -48,6 +48,8 @@ func (o wop) String() string {
 		return fmt.Sprintf("r%d=get(%x)", o.Reg, o.K)
 	case 4:
 		return fmt.Sprintf("put(%x,r%d)  // r%d holds %x", o.K, o.Reg, o.Reg, o.V)
+	case 5:
+		return fmt.Sprintf("get(%x)", o.K)
 	}
 	return "fail"
 }
@@ -67,6 +69,8 @@ type net struct {
 	// previous value of B and vice versa), which lets the generator express a write as "put the slice
 	// that Get returned for another key" — the way native contracts move records around.
 	forced map[string][][]byte
+	// samePersisted: key whose final value was chosen equal to its persisted value ("" = none)
+	samePersisted string
 }
 
 var alphabet = []byte{0x00, 'a', 'b', 0xff}
@@ -86,9 +90,19 @@ func genVal(rng *rand.Rand) []byte {
 	return v
 }
 
-func genNet(rng *rand.Rand, prefix []byte) *net {
+// persisted = what the test itself stored below the block (key as CacheDB callers name it -> value).
+func genNet(rng *rand.Rand, prefix []byte, persisted map[string][]byte) *net {
 	n := &net{final: map[string][]byte{}}
 	want := 1 + rng.Intn(9)
+	if len(persisted) > 0 && rng.Intn(2) == 0 {
+		// a key that is re-written with exactly the value it already has in the persisted state: it is a
+		// written key like any other and belongs to the write set with that value
+		pks := persistedKeys(persisted)
+		pk := pks[rng.Intn(len(pks))]
+		n.keys = append(n.keys, pk)
+		n.final[string(pk)] = append([]byte{}, persisted[string(pk)]...)
+		n.samePersisted = string(pk)
+	}
 	for len(n.keys) < want {
 		k := genKey(rng, prefix)
 		if _, ok := n.final[string(k)]; ok {
@@ -110,7 +124,12 @@ func genNet(rng *rand.Rand, prefix []byte) *net {
 		rng.Read(w)
 		return w
 	}
-	perm := rng.Perm(len(n.keys))
+	var perm []int
+	for _, i := range rng.Perm(len(n.keys)) {
+		if string(n.keys[i]) != n.samePersisted {
+			perm = append(perm, i)
+		}
+	}
 	if len(perm) >= 2 && rng.Intn(10) < 6 { // archive-then-update: H keeps what K held before its last write
 		k, h := string(n.keys[perm[0]]), string(n.keys[perm[1]])
 		o := genVal(rng)
@@ -131,7 +150,7 @@ func genNet(rng *rand.Rand, prefix []byte) *net {
 // ends in the final one; chains are merged in a random order (per-key order kept) and cut into
 // transactions; aborted transactions (touching arbitrary keys) are sprinkled in between.
 // style selects which equivalence the sequence exercises.
-func genTxs(rng *rand.Rand, n *net, style int, prefix []byte, allowDirect bool) ([]txn, map[string]int) {
+func genTxs(rng *rand.Rand, n *net, style int, prefix []byte, allowDirect bool, persisted [][]byte) ([]txn, map[string]int) {
 	stats := map[string]int{}
 	chains := make([][]wop, len(n.keys))
 	for i, k := range n.keys {
@@ -231,8 +250,49 @@ func genTxs(rng *rand.Rand, n *net, style int, prefix []byte, allowDirect bool) 
 		txs = append(txs, t)
 	}
 	forwardize(rng, txs, stats)
+	if style != 0 {
+		addReads(rng, n, txs, persisted, prefix, stats)
+	}
 	stats["txs"] += len(txs)
 	return txs, stats
+}
+
+// addReads sprinkles plain reads (the result is not used) into the transactions: of keys that exist
+// in the persisted state below the block (persisted = keys the test itself stored there with a
+// non-empty value), of keys of the net set and of random keys. A read is not a write: the net write
+// set, hence the expected write set and digest, are unchanged. Minimal sequences (style 0) get none,
+// so every comparison has at least one side that differs in what it reads.
+func addReads(rng *rand.Rand, n *net, txs []txn, persisted [][]byte, prefix []byte, stats map[string]int) {
+	for ti := range txs {
+		t := &txs[ti]
+		k := rng.Intn(3)
+		if k == 0 {
+			continue
+		}
+		ops := append([]wop{}, t.Ops...)
+		for j := 0; j < k; j++ {
+			var key []byte
+			fromStore := false
+			switch c := rng.Intn(10); {
+			case c < 6 && len(persisted) > 0:
+				key = persisted[rng.Intn(len(persisted))]
+				fromStore = true
+			case c < 8:
+				key = n.keys[rng.Intn(len(n.keys))]
+			default:
+				key = genKey(rng, prefix)
+			}
+			pos := rng.Intn(len(ops) + 1)
+			ops = append(ops, wop{})
+			copy(ops[pos+1:], ops[pos:])
+			ops[pos] = wop{Kind: 5, K: append([]byte{}, key...)}
+			stats["plain_reads"]++
+			if _, written := n.final[string(key)]; fromStore && !written && !t.Fail && !t.Direct {
+				stats["reads_of_persisted_unwritten_key_in_committed_tx"]++
+			}
+		}
+		t.Ops = ops
+	}
 }
 
 // forwardize rewrites some puts of a committed transaction into value-forwarding form: if, at some
@@ -390,6 +450,8 @@ func applyOverlay(ov *overlaydb.OverlayDB, txs []txn) {
 					regs[o.Reg], _ = ov.Get(full)
 				case 4:
 					ov.Put(full, regs[o.Reg])
+				case 5:
+					ov.Get(full)
 				}
 			}
 			continue
@@ -405,6 +467,8 @@ func applyOverlay(ov *overlaydb.OverlayDB, txs []txn) {
 				regs[o.Reg], _ = cache.Get(o.K)
 			case 4:
 				cache.Put(o.K, regs[o.Reg])
+			case 5:
+				cache.Get(o.K)
 			}
 		}
 		if !t.Fail {
@@ -418,6 +482,7 @@ func partA(r *kit.Run) {
 	n := r.N(3000, 100000)
 	var store *leveldbstore.LevelDBStore
 	var ovs [3]*overlaydb.OverlayDB
+	persisted := map[string][]byte{} // what this test stored in the backing store (keys as CacheDB callers name them)
 	defer func() {
 		if store != nil {
 			store.Close()
@@ -435,14 +500,20 @@ func partA(r *kit.Run) {
 				return
 			}
 			// persisted contents overlapping the key space (the digest must not depend on them either)
+			persisted = map[string][]byte{}
 			for j, n0 := 0, rng.Intn(30); j < n0; j++ {
-				store.Put(append([]byte{byte(scommon.ST_STORAGE)}, genKey(rng, nil)...), genVal(rng))
+				pkey, pval := genKey(rng, nil), genVal(rng)
+				store.Put(append([]byte{byte(scommon.ST_STORAGE)}, pkey...), pval)
+				persisted[string(pkey)] = pval
 			}
 			for j := range ovs {
 				ovs[j] = overlaydb.NewOverlayDB(store)
 			}
 		}
-		nt := genNet(rng, nil)
+		nt := genNet(rng, nil, persisted)
+		if nt.samePersisted != "" {
+			r.Count("A_nets_rewriting_a_key_with_its_persisted_value", 1)
+		}
 		want := netKV(nt, []byte{byte(scommon.ST_STORAGE)})
 		var hashes [3]common.Uint256
 		var seqs [3][]txn
@@ -452,7 +523,7 @@ func partA(r *kit.Run) {
 			if i%3 == 0 {
 				style = 2
 			}
-			txs, stats := genTxs(rng, nt, style, nil, true)
+			txs, stats := genTxs(rng, nt, style, nil, true, persistedKeys(persisted))
 			for k, v := range stats {
 				r.Count("A_"+k, v)
 			}
@@ -481,13 +552,13 @@ func partA(r *kit.Run) {
 		// sensitivity (vacuity guard, not a property clause): changing one final value changes the digest
 		if i%10 == 0 {
 			ovs[2].Reset()
-			nt2 := &net{keys: nt.keys, final: map[string][]byte{}, forced: nt.forced}
+			nt2 := &net{keys: nt.keys, final: map[string][]byte{}, forced: nt.forced, samePersisted: nt.samePersisted}
 			for k, v := range nt.final {
 				nt2.final[k] = v
 			}
 			k0 := string(nt.keys[rng.Intn(len(nt.keys))])
 			nt2.final[k0] = append(genVal(rng), 0x55, 0xaa, 0x55, 0xaa, 0x55, 0xaa, 0x55)
-			txs, _ := genTxs(rng, nt2, 2, nil, true)
+			txs, _ := genTxs(rng, nt2, 2, nil, true, persistedKeys(persisted))
 			applyOverlay(ovs[2], txs)
 			if ovs[2].ChangeHash() != hashes[0] {
 				r.Count("A_digest_changed_with_different_final_value", 1)
@@ -506,9 +577,22 @@ func partA(r *kit.Run) {
 	r.Require("A_equal_digests", n)
 	r.Require("A_equal_write_sets", n)
 	r.Require("A_digest_changed_with_different_final_value", n/10-1)
-	for _, c := range []string{"A_intermediate_delete", "A_intermediate_same_value", "A_intermediate_put_empty", "A_intermediate_other_value", "A_final_delete", "A_final_delete_as_empty_put", "A_delete_then_put", "A_put_then_delete", "A_aborted_tx"} {
+	for _, c := range []string{"A_intermediate_delete", "A_intermediate_same_value", "A_intermediate_put_empty", "A_intermediate_other_value", "A_final_delete", "A_final_delete_as_empty_put", "A_delete_then_put", "A_put_then_delete", "A_aborted_tx", "A_forwarded_after_source_overwritten_by_value_not_longer", "A_reads_of_persisted_unwritten_key_in_committed_tx", "A_nets_rewriting_a_key_with_its_persisted_value"} {
 		r.Require(c, n/10)
 	}
+}
+
+func persistedKeys(m map[string][]byte) [][]byte {
+	ks := make([]string, 0, len(m))
+	for k := range m {
+		ks = append(ks, k)
+	}
+	sort.Strings(ks)
+	out := make([][]byte, len(ks))
+	for i, k := range ks {
+		out[i] = []byte(k)
+	}
+	return out
 }
 
 func kvJSON(kvs []kv) map[string]string {
@@ -582,6 +666,10 @@ func runScriptContract(s *native.NativeService) ([]byte, error) {
 				return nil, errors.New("script: bad register")
 			}
 			s.GetCacheDB().Put(k, regs[v[0]])
+		case 5:
+			if _, err := s.GetCacheDB().Get(k); err != nil {
+				return nil, err
+			}
 		default:
 			return nil, errors.New("script: scripted abort")
 		}
@@ -608,8 +696,12 @@ func partB(r *kit.Run) {
 	}
 	n := r.N(24, 1000)
 	prefix := scriptAddr[:]
+	persistedB := map[string][]byte{} // keys left live in the ledgers' state by the previous blocks (model-owned)
 	for i := 0; i < n; i++ {
-		nt := genNet(rng, prefix)
+		nt := genNet(rng, prefix, persistedB)
+		if nt.samePersisted != "" {
+			r.Count("B_nets_rewriting_a_key_with_its_persisted_value", 1)
+		}
 		want := netKV(nt, []byte{byte(scommon.ST_STORAGE)})
 		var res [2]struct {
 			hash, root, stored common.Uint256
@@ -621,7 +713,7 @@ func partB(r *kit.Run) {
 			if i%2 == 1 {
 				style = 1 + j
 			}
-			txs, stats := genTxs(rng, nt, style, prefix, false)
+			txs, stats := genTxs(rng, nt, style, prefix, false, persistedKeys(persistedB))
 			for k, v := range stats {
 				r.Count("B_"+k, v)
 			}
@@ -703,6 +795,13 @@ func partB(r *kit.Run) {
 			r.Count("B_equal_write_sets", 1)
 			r.Count("B_written_keys", len(want))
 		}
+		for k, v := range nt.final {
+			if len(v) == 0 {
+				delete(persistedB, k)
+			} else {
+				persistedB[k] = append([]byte{}, v...)
+			}
+		}
 		if i == 1 {
 			r.Sample(map[string]interface{}{"part": "B", "height": chains[0].Store.GetCurrentBlockHeight(), "net_write_set": kvJSON(want), "ledger_1_txs": txsJSON(seqs[0]), "ledger_2_txs": txsJSON(seqs[1]), "digest": kit.Hex(res[0].hash[:]), "state_root": kit.Hex(res[0].root[:])})
 		}
@@ -718,6 +817,9 @@ func partB(r *kit.Run) {
 	r.Require("B_equal_write_sets", n)
 	r.Require("B_written_keys", n)
 	r.Require("B_tx_succeeded", n)
+	r.Require("B_reads_of_persisted_unwritten_key_in_committed_tx", n/2)
+	r.Require("B_forwarded_puts", n/2)
+	r.Require("B_nets_rewriting_a_key_with_its_persisted_value", n/4)
 	r.Require("B_tx_aborted", n/8)
 	r.Require("B_re_executions_equal", 2*n)
 }
@@ -725,7 +827,7 @@ func partB(r *kit.Run) {
 func TestC11(t *testing.T) {
 	r := kit.Start(t, "C11", "exploration")
 	defer r.Finish()
-	r.Rule("a net write set (1..9 keys over a small alphabet, ~30% finally deleted) is expanded into operation sequences: per key 0..3 intermediate writes (other value, delete, empty put, the final value early) then the final write (deletion as Delete or as empty Put), chains merged in random order, cut into transactions (through a CacheDB + Commit, or directly on the block layer), aborted transactions touching arbitrary keys in between. Part A: 3 sequences per net set on real OverlayDBs over a store with random contents -> ChangeHash and GetWriteSet must coincide. Part B: two real ledgers execute one block per net set whose scripted-contract transactions perform two different sequences -> ExecuteResult.Hash, MerkleRoot, write set and the stored state root must coincide; every block is also executed three times on its ledger. distinct = (part, #keys, #txs per sequence, digest)")
+	r.Rule("a net write set (1..9 keys over a small alphabet, ~30% finally deleted; in half of the sets one key is re-written with exactly the value it already has in the persisted state below the block) is expanded into operation sequences: per key 0..3 intermediate writes (other value, delete, empty put, the final value early) then the final write (deletion as Delete or as empty Put), chains merged in random order, cut into transactions (through a CacheDB + Commit, or directly on the block layer), aborted transactions touching arbitrary keys in between; some puts are rewritten to forward the uncopied slice a Get of another key returned earlier in the transaction; plain reads (of keys persisted below the block and not written by it, of written keys, of random keys) are sprinkled into all but the minimal sequences. Part A: 3 sequences per net set on real OverlayDBs over a store with random contents -> ChangeHash and GetWriteSet must coincide. Part B: two real ledgers execute one block per net set whose scripted-contract transactions perform two different sequences -> ExecuteResult.Hash, MerkleRoot, write set and the stored state root must coincide; every block is also executed three times on its ledger. distinct = (part, #keys, #txs per sequence, digest)")
 	r.Assume("sequences compared always touch the same key set (a key written then deleted is still a written key); a deletion and an empty put are the same final value")
 	r.Assume("the scripted contract registered into native.Contracts for this test only calls CacheDB.Put/Delete, like real native contracts do")
 	partA(r)
